@@ -175,3 +175,27 @@ def in_effective_selection(k, select, graph, UNSET):
         if select is UNSET
         else ((k in graph.outputs) if select == "**" else ((k == select) if isinstance(select, str) else (k in select)))
     )
+
+
+def ready0(graph, state, node, activated_names):
+    """Ready before gate blocking and ordering deferral: activated, inputs available, ordering satisfied, needs a run."""
+    return node.name in activated_names and all_avail(graph, state, node) and wf_ok(state, node) and needs(graph, state, node)
+
+
+def is_deferred(ready, n):
+    """n waits for a name that another node of the same ready set produces: the consumer is deferred one step."""
+    return any(w in m.outputs and m.name != n.name for w in n.wait_for for m in ready)
+
+
+def in_scope(node, active_nodes):
+    return active_nodes is None or node.name in active_nodes
+
+
+def targets_blocked(g, blocked, END):
+    """Every real target of gate g other than g itself is in the blocked set."""
+    return all(t is END or t == g.name or t in blocked for t in g.targets)
+
+
+def gate_targets_ok(g, END):
+    """Object-model fact: targets of a gate are node names (str) or END (gate constructors normalise them)."""
+    return not is_gate(g) or targets_are_names(g, END)
